@@ -331,6 +331,12 @@ def verdicts(ctx, behs, rows, confirm, tag="v"):
     ctx.cov["distinct_nontrivial"] += nontriv
     ctx.cov["caught_up_points"] = ctx.cov.get("caught_up_points", 0) + nsync
     ctx.cov["reruns"] = ctx.cov.get("reruns", 0) + nrerun
+    stalls = [scen(behs[i]) for i, rs in per.items() if any(r["a"] == "Sync" and r.get("stalled") for r in rs)]
+    if stalls:
+        ctx.cov["checkpoint_stalls"] = ctx.cov.get("checkpoint_stalls", 0) + len(stalls)
+        ctx.notes.append("%d scenario(s) with a stalled pull checkpoint (a transferred revision was refused by the pulling peer - 404 \"top-level property '_deleted' is a "
+                         "reserved internal property\" for an obsolete tombstone sent after its document was resurrected - and its sequence is never acknowledged; "
+                         "documents converged; caught-up point taken by quiet counters), e.g. %s" % (len(stalls), stalls[0]["steps"]))
     if per:
         k = sorted(per)[len(per) // 2]
         ctx.sample({"scenario": {"label": behs[k][0], "proto": behs[k][1], "dir": behs[k][2], "steps": " ".join(fmt_step(s) for s in behs[k][3])},
